@@ -28,7 +28,7 @@ ASSUMPTIONS = [
     "no STATQ or truncated STATP is sent towards the client (outside the quantifier)",
 ]
 BUDGET = {
-    "quick": {"workers": 16, "examples": 1600},
+    "quick": {"workers": 16, "examples": 4800},
     "thorough": {"workers": 16, "examples": 32000},
 }
 BLOCK = 1024
